@@ -165,6 +165,34 @@ def r2_parsing(ctx):
     ok = sym.same(env.get("signs", [None])[-1], "np.where(is_negative, -1, +1)") and sym.same(env.get("base_numbers", [None])[-1], "(number_digits * powers).sum(axis=-1)") and \
         sym.same(env.get("powers", [None, None])[-1], "10.0 ** exponents") and sym.same(env.get("dots", [None])[0], "np.nonzero(number_text == '.')")
     ctx.ob(d.where, "decimal parser: parts are the sign mask, the digit sum and 10**(#decimals)", ok, "", key="C18-R2|decimal-parts")
+    # the digit weights of the float parser are floating point: integer weights 10**k wrap silently in int64 beyond 18 digits
+    pw = [x for x in body_walk(d.node) if isinstance(x, ast.Assign) and u(x.targets[0]) == "powers" and isinstance(x.value, ast.BinOp) and isinstance(x.value.op, ast.Pow)]
+    ctx.floor("digit weight computations in the decimal parser", len(pw), 2)
+    for x in pw:
+        b = x.value.left
+        isf = (isinstance(b, ast.Constant) and isinstance(b.value, float)) or (isinstance(b, ast.Call) and u(b.func) in ("float", "np.float64"))
+        if not isf and not (isinstance(b, ast.Constant) and isinstance(b.value, int)):
+            raise Unrecognised(f"{d.where}: base of the digit weights has an unknown form: {u(x)}")
+        ctx.ob(d.where, "the float parser weighs digits with floating-point powers of ten (an integer 10**k wraps in int64 for texts of 20 or more digits)", isf, u(x),
+               key=f"C18-R2|float-weights|{sym.canon(x.value.right)[:30]}")
+    # delta-array discipline of the power array: it is filled with per-cell increments and then accumulated; a cell that is set absolutely (the '.' cells)
+    # must be set BEFORE increments are added to cells that may coincide with it (a number can start with '.'), or the increment is lost
+    bp = ix.func(S, "_build_power_array")
+    acc = [x for x in body_walk(bp.node) if isinstance(x, ast.Call) and u(x.func) == "np.cumsum" and any(k.arg == "out" for k in x.keywords)]
+    ctx.need(len(acc) == 1, "_build_power_array: in-place cumulative sum not found")
+    arr = u(acc[0].args[0])
+    events = []
+    for x in body_walk(bp.node):
+        if isinstance(x, ast.Assign) and isinstance(x.targets[0], ast.Subscript) and u(x.targets[0].value) == arr:
+            events.append((x.lineno, "set", x))
+        elif isinstance(x, ast.AugAssign) and isinstance(x.target, ast.Subscript) and u(x.target.value) == arr:
+            events.append((x.lineno, "add", x))
+    events.sort(key=lambda e: e[0])
+    first_add = next((i for i, e in enumerate(events) if e[1] == "add"), len(events))
+    late_sets = [e for e in events[first_add:] if e[1] == "set"]
+    ctx.floor("point updates of the power array", len(events), 3)
+    ctx.ob(bp.where, "cells of the power array are set absolutely (the '.' cells) only before increments are added: a later absolute store erases the increment of a "
+           "row that starts with '.' and shifts the powers of every following row", not late_sets, "; ".join(u(e[2]) for e in late_sets), key="C18-R2|power-array-order")
     ex = [x for x in body_walk(d.node) if isinstance(x, ast.Assign) and isinstance(x.targets[0], ast.Subscript) and u(x.targets[0].value) == "exponents"]
     ok = len(ex) == 1 and sym.canon(ex[0].targets[0].slice) == "row_indices" and sym.same(ex[0].value, "number_text.lengths[row_indices] - col_indices - 1")
     ctx.ob(d.where, "number of decimals of a row = row length - position of its '.' - 1 (rows without '.' keep 0)", ok, u(ex[0]) if ex else "", key="C18-R2|exponents")
@@ -264,10 +292,13 @@ def r5_missing_shortcut(ctx):
     ctx.floor("quantified tests guarding the all-missing shortcut", n, 2)
 
 
+from .c20 import r2_private_mutator_call_sites as _parser_call_sites_own_their_text   # the decimal parser overwrites signs / dots in place: every caller hands it a copy
+
 RULES = [
     ("C18-R1", r1_formatting),
     ("C18-R2", r2_parsing),
     ("C18-R3", r3_digit_matrix),
     ("C18-R4", r4_float_and_list_formatting),
     ("C18-R5", r5_missing_shortcut),
+    ("C18-R6", _parser_call_sites_own_their_text),
 ]
